@@ -6,8 +6,10 @@
      session.LogoutToken, session.EndSessionRequest.
    Shape of every rule set: a typed guard (outside it the model answers Unmodelled), then the ordered
    list of (condition that must hold, exception raised otherwise) the code checks.  Embedded signed
-   objects (id_token, id_token_hint, logout_token, request) need the key jar: Unmodelled here, decided
-   on the real code by the driver's signed-object matrix.  Time is the explicit argument `now`.
+   objects (id_token_hint, logout_token, request; forged or unsigned ID Tokens) need the key jar: Unmodelled
+   here, decided on the real code by the driver's signed-object matrix.  The ID Token of an authorization /
+   token response whose signature verifies is modelled (last section: verify_id_token, the two hash rules).
+   Time is the explicit argument `now`.
    Hand-written, executable; tied to /repo by harness/drv_C11.py (truth tables).  No proofs here. *)
 From Coq Require Import String.
 From Verif Require Import Lib.Base Lib.PyStr Lib.Qs Lib.MsgSchema Model.Msg.
@@ -303,6 +305,124 @@ Definition endsession_verify (c : mclass) (m : msg) : res bool :=
   let m1 := adel (PS "__verified_request") (adel (PS "__verified_id_token_hint") (adel (PS "__verified_id_token") m)) in
   if has "post_logout_redirect_uri" m1 && negb (has "id_token_hint" m1) then Ok false
   else if has "id_token_hint" m1 then Unmodelled else Ok true.
+
+(* ================= oidc.AuthorizationResponse / oidc.AccessTokenResponse WITH an ID Token =================
+   verify_id_token(msg, check_hash, **kwargs) of idpyoidc.message.oidc and the two verify() that call it.
+   Environment (supplied by each generated case): the left-half hash `lh bits value` (cryptojwt left_hash:
+   base64url of the left half of SHA-<bits>), the issuers the key jar knows, the clock, and the ID Token
+   symbolically (Model/Msg.v `token`).  Modelled fragment: a key jar is passed; the token is a compact JWS
+   whose signature verifies (TJws SigValid) made with an RS / ES / PS / HS algorithm of 256 / 384 / 512 bits,
+   not encrypted; keywords among iss, client_id, skew, nonce_storage_time, nonce, allowed_sign_alg.  Every
+   other shape (forged, alg none, JWE, other keywords): Unmodelled here - decided on the real code by the
+   driver's signed-object matrix. *)
+Definition EAtHash : exc := Refused 17.           (* AtHashError *)
+Definition ECHash : exc := Refused 18.            (* CHashError *)
+
+(* hash function name used for at_hash / c_hash: "HS" + alg[-3:] -> 256 / 384 / 512 *)
+Definition hash_bits (alg : pystr) : pystr := List.rev (firstn 3 (List.rev alg)).
+(* finite hash table supplied by a case file: ((bits, value), digest) *)
+Definition lhash_of (tbl : list (pystr * pystr * pystr)) (bits v : pystr) : pystr :=
+  match find (fun e => str_eqb (fst (fst e)) bits && str_eqb (snd (fst e)) v) tbl with
+  | Some e => snd e
+  | None => PS "?unknown-hash?"
+  end.
+Definition hash_alg_modelled (alg : pystr) : bool :=
+  str_in alg [PS "RS256"; PS "RS384"; PS "RS512"; PS "ES256"; PS "ES384"; PS "ES512";
+              PS "PS256"; PS "PS384"; PS "PS512"; PS "HS256"; PS "HS384"; PS "HS512"].
+
+(* one hash rule: when the response carries `param`, the ID Token carries `claim` and it equals the left
+   hash of the parameter's value under the hash that goes with the token's signing algorithm.  The two rules
+   are INDEPENDENT: each is a list of its own, a response with both parameters has to satisfy both *)
+Definition hash_rule (lh : pystr -> pystr -> pystr) (alg : pystr) (param claim : string) (bad : exc)
+    (m idt : msg) : list (bool * exc) :=
+  [ (implb (has param m) (has claim idt), EMissingRequired);
+    (match get param m with
+     | Some (VStr v) => match get claim idt with
+                        | Some h => pyval_eqb h (VStr (lh (hash_bits alg) v))
+                        | None => false
+                        end
+     | _ => true
+     end, bad) ].
+Definition c_hash_rule lh alg (m idt : msg) := hash_rule lh alg "code" "c_hash" ECHash m idt.
+Definition at_hash_rule lh alg (m idt : msg) := hash_rule lh alg "access_token" "at_hash" EAtHash m idt.
+(* in the order the code checks them *)
+Definition hash_rules lh alg (m idt : msg) := at_hash_rule lh alg m idt ++ c_hash_rule lh alg m idt.
+(* the parameters the hashes are taken of are text *)
+Definition hash_typed (m : msg) : bool :=
+  match get "code" m with Some (VStr _) | None => true | _ => false end
+  && match get "access_token" m with Some (VStr _) | None => true | _ => false end.
+
+Definition verified_id_token : pystr := PS "__verified_id_token".
+(* clear_verified_claims *)
+Definition clear_verified (m : msg) : msg :=
+  adel (PS "__verified_request") (adel (PS "__verified_id_token_hint") (adel verified_id_token m)).
+Definition idt_kw_modelled (kw : msg) : bool :=
+  forallb (fun kv => str_in (fst kv) [PS "iss"; PS "client_id"; PS "skew"; PS "nonce_storage_time"; PS "nonce";
+                                      PS "allowed_sign_alg"]) kw.
+(* the token as verify_id_token sees it: (JWS header alg, claims) *)
+Definition id_token_open (t : token) : res (pystr * msg) :=
+  match t with
+  | TJws SigValid alg p => if hash_alg_modelled alg then Ok (alg, p) else Unmodelled
+  | _ => Unmodelled
+  end.
+(* `allowed_sign_alg` in kwargs: the header algorithm must be that one *)
+Definition idt_alg_allowed (kw : msg) (alg : pystr) : res unit :=
+  match get "allowed_sign_alg" kw with
+  | None => Ok tt
+  | Some (VStr a) => if str_eqb alg a then Ok tt else Err EUnsupportedAlg
+  | Some _ => Unmodelled
+  end.
+(* a signed token with a key jar: the issuer named INSIDE the token must be one the key jar knows *)
+Definition idt_issuer_known (issuers : list pystr) (p : msg) : res unit :=
+  match get "iss" p with
+  | None => Err EMissingRequired
+  | Some (VStr i) => if str_in i issuers then Ok tt else Err ValueError
+  | Some _ => Unmodelled
+  end.
+(* verify_id_token: algorithm policy, issuer known, IdToken().from_jwt (signature symbolic), IdToken.verify with
+   ALL the keyword arguments, then - signed token and check_hash - the hash rules; result: the verified token *)
+Definition verify_id_token (lh : pystr -> pystr -> pystr) (issuers : list pystr) (ic : mclass) (now : Z)
+    (check_hash : bool) (kw : msg) (t : token) (m : msg) : res msg :=
+  if negb (idt_kw_modelled kw) then Unmodelled else
+  match get "id_token" m with
+  | Some (VStr _) =>
+      ap <- id_token_open t ;;
+      _ <- idt_alg_allowed kw (fst ap) ;;
+      _ <- idt_issuer_known issuers (snd ap) ;;
+      o <- construct ic (snd ap) ;;
+      _ <- idtoken_verify ic now kw o ;;
+      if negb (hash_typed m) then Unmodelled else
+      _ <- (if check_hash then run_checks (hash_rules lh (fst ap) m o) else Ok tt) ;;
+      Ok o
+  | _ => Unmodelled
+  end.
+(* the `aud` extra of the oidc authorization response must contain the client *)
+Definition aud_for_me (kw m : msg) : res bool :=
+  match get "aud" m, get "client_id" kw with
+  | Some a, Some (VStr k) => py_contains k a
+  | Some _, Some _ => Unmodelled
+  | _, _ => Ok true
+  end.
+(* oidc.AuthorizationResponse.verify with keyword arguments kw: the oauth2 checks, the stale markers removed, aud, and the ID Token
+   with check_hash=True.  Result: (what verify() returns, the message afterwards) *)
+Definition oidc_authzresp_verify_idt lh issuers (c ic : mclass) (now : Z) (kw : msg) (t : token) (m : msg)
+    : res (bool * msg) :=
+  _ <- authzresp_verify c kw m ;;
+  let m1 := clear_verified m in
+  mine <- aud_for_me kw m1 ;;
+  if negb mine then Ok (false, m1)
+  else if negb (has "id_token" m1) then Ok (true, m1)
+  else o <- verify_id_token lh issuers ic now true kw t m1 ;;
+       Ok (true, aset verified_id_token (VObj o) m1).
+(* oidc.AccessTokenResponse.verify with keyword arguments kw: ResponseMessage.verify, the stale markers removed, the ID Token with
+   check_hash=False: NO hash rule applies to the token response *)
+Definition oidc_tokenresp_verify_idt lh issuers (c ic : mclass) (now : Z) (kw : msg) (t : token) (m : msg)
+    : res (bool * msg) :=
+  _ <- response_verify c m ;;
+  let m1 := clear_verified m in
+  if negb (has "id_token" m1) then Ok (true, m1)
+  else o <- verify_id_token lh issuers ic now false kw t m1 ;;
+       Ok (true, aset verified_id_token (VObj o) m1).
 
 (* ================= dispatcher used by the correspondence cases =================
    result: what verify() returns (truthiness) and the message afterwards *)
